@@ -37,6 +37,10 @@ import (
 // Filter interface provides a unified interface for both BloomFilter and DictionaryFilter.
 type Filter interface {
 	MightContain(item []byte) bool
+	// ContainsAll reports whether all items might be present. For a dictionary of array
+	// values it checks that the items are elements of one stored array; MightContain
+	// cannot answer that (it compares whole dictionary values) and returns false there.
+	ContainsAll(items [][]byte) bool
 }
 
 func encodeBloomFilter(dst []byte, bf *filter.BloomFilter) []byte {
@@ -222,7 +226,9 @@ func (tfs *tagFamilyFilters) Eq(tagName string, tagValue string) bool {
 				// No filter available, conservatively return true (don't skip)
 				return true
 			}
-			return tf.filter.MightContain([]byte(tagValue))
+			// ContainsAll, not MightContain: for an array tag the probe is one element and a
+			// dictionary filter stores whole (serialized) arrays.
+			return tf.filter.ContainsAll([][]byte{[]byte(tagValue)})
 		}
 	}
 	return true
@@ -263,7 +269,7 @@ func (tfs *tagFamilyFilters) Having(tagName string, tagValues []string) bool {
 		if tf, ok := (*tff)[tagName]; ok {
 			if tf.filter != nil {
 				for _, tagValue := range tagValues {
-					if tf.filter.MightContain([]byte(tagValue)) {
+					if tf.filter.ContainsAll([][]byte{[]byte(tagValue)}) {
 						return true // Return true as soon as we find a potential match
 					}
 				}
